@@ -112,7 +112,9 @@ def completeness_violations(spec, live, rng, trig, replay, n_inputs=3):
             else:
                 anc = {x.id for x in val.all_ancestors_with_id}
             if inp_id not in anc:
-                out.append({"signature": f"C08:incomplete:{op['kind']}.{op['param']}->{key[1]}{trig}",
+                # with a job shared by several usage patterns the ancestors are walked by id and the entries of one
+                # per-usage-pattern dict share an id: one signature for the whole D2 family, whatever the attribute
+                out.append({"signature": "C08:incomplete:shared-job" if trig == ":shared-job" else f"C08:incomplete:{op['kind']}.{op['param']}->{key[1]}{trig}",
                             "detail": f"{op['name']}.{op['param']} changes {key[0]}.{key[1]} but is not among its transitive ancestors",
                             "replay": dict(replay, perturbed=op)})
                 break
